@@ -125,12 +125,16 @@ class MemPerDocWriter(base.PerDocWriterWithColumns):
 
     def close(self):
         with self._segment._lock:
+            # Every column must cover all documents of the segment, including
+            # trailing ones that have no value for it
+            doccount = max(self._segment.doc_count_all(),
+                           getattr(self, "_docnum", -1) + 1)
             for fieldname, (column, values) in self._segment._columns.items():
                 colfile = self._storage.create_file("%s.c" % fieldname)
                 colwriter = column.writer(colfile)
                 for docnum in sorted(values):
                     colwriter.add(docnum, values[docnum])
-                colwriter.finish(max(values) + 1 if values else 0)
+                colwriter.finish(doccount)
                 colfile.close()
         self.is_closed = True
 
